@@ -11,6 +11,7 @@ package scen
 //    crash-capable race blocks when run under -race)
 
 import (
+	"github.com/mimiro-io/datahub/internal/service/entity"
 	"encoding/json"
 	"fmt"
 	"math/rand"
@@ -78,7 +79,10 @@ func genC13Case(r *rand.Rand, writers, readers, opsPer int) c13Case {
 					ops = append(ops, c13Op{Kind: "lookup", Exp: e})
 				}
 			} else {
-				switch r.Intn(5) {
+				switch r.Intn(8) {
+				case 5, 6, 7:
+					// entity details by CURIE through the service layer (what POST /query with details does)
+					ops = append(ops, c13Op{Kind: "details", Exp: e, URI: e + c13Locals[1+r.Intn(len(c13Locals)-1)]})
 				case 0:
 					ops = append(ops, c13Op{Kind: "lookup", Exp: e})
 				case 1:
@@ -181,6 +185,44 @@ func c13RoundTrip(ctx *Ctx, r *rand.Rand, n int) {
 			ctx.Out.Stat("c13_roundtrips_ok", 1)
 		}
 	}
+	// the same through the prefixed form a client may post (local context prefix -> expansion), with local parts
+	// that contain colons, slashes and hashes, and through the default prefix "_"
+	locals := append([]string{"urn:isbn:111", "urn:isbn:222", "a:b", "x:y:z", "k:", "order:1001/7", "dim:width#mm"}, c13Locals...)
+	for i := 0; i < n/4+len(locals); i++ {
+		exp := c13Expansion(r, r.Intn(30))
+		local := locals[i%len(locals)]
+		for _, form := range []string{"prefixed", "default"} {
+			in, lctx := "p:"+local, map[string]string{"p": exp}
+			if form == "default" {
+				if strings.Contains(local, ":") || local == "" {
+					continue
+				}
+				in, lctx = local, map[string]string{"_": exp}
+			}
+			var curie string
+			var err error
+			func() {
+				defer func() {
+					if p := recover(); p != nil {
+						err = fmt.Errorf("panic: %v", p)
+					}
+				}()
+				curie, err = core.Store.GetNamespacedIdentifier(in, lctx)
+			}()
+			if err != nil {
+				if strings.HasPrefix(err.Error(), "panic") {
+					ctx.Out.Viol(id, "C13", "roundtrip-panic", fmt.Sprintf("compacting %q (context %v) panicked: %v", in, lctx, err), nil, nil, nil)
+				}
+				continue
+			}
+			back, err := core.Store.ExpandCurie(curie)
+			if err != nil || back != exp+local {
+				ctx.Out.Viol(id, "C13", "roundtrip-prefixed-form", fmt.Sprintf("%q posted with context %v stands for %q; it is stored as %q, which expands to %q (%v)", in, lctx, exp+local, curie, back, err), exp+local, back, nil)
+				return
+			}
+			ctx.Out.Stat("c13_roundtrips_prefixed_form_ok", 1)
+		}
+	}
 }
 
 type c13Ev struct {
@@ -206,6 +248,15 @@ func runC13Case(ctx *Ctx, c c13Case) {
 	core.Dsm.CreateDataset("da", nil)
 	core.Dsm.CreateDataset("db", &server.CreateDatasetConfig{PublicNamespaces: []string{"http://data.mimiro.io/core/dataset/"}})
 	cstore := server.NewContextualStore(core.Store)
+	var nDetailsOK, nDetailsErr int64
+	defer func() {
+		ctx.Out.Stat("c13_service_details_lookups_answered", atomic.LoadInt64(&nDetailsOK))
+		ctx.Out.Stat("c13_service_details_lookups_entity_unknown", atomic.LoadInt64(&nDetailsErr))
+	}()
+	var svcLookup *entity.Lookup
+	if l, err := entity.NewLookup(server.NewBadgerAccess(core.Store, core.Dsm)); err == nil {
+		svcLookup = &l
+	}
 	var clock int64
 	now := func() int64 { return atomic.AddInt64(&clock, 1) }
 	var mu sync.Mutex
@@ -272,6 +323,16 @@ func runC13Case(ctx *Ctx, c c13Case) {
 							}
 						}
 						ev.kind = "implicit"
+					case "details":
+						if p, err := st.NamespaceManager.GetPrefixMappingForExpansion(op.Exp); err == nil && svcLookup != nil {
+							_, derr := svcLookup.Details(p+":"+op.URI[len(op.Exp):], nil) // the entity may not exist (yet)
+							if derr == nil {
+								atomic.AddInt64(&nDetailsOK, 1)
+							} else {
+								atomic.AddInt64(&nDetailsErr, 1)
+							}
+						}
+						ev.kind = "skip"
 					case "ctxstore":
 						_, _ = cstore.GetNamespacedIdentifier(op.URI, map[string]string{})
 						ev.kind = "implicit"
